@@ -23,5 +23,7 @@ def run(ctx):
     print_numbers(ctx)        # printing hands the integer to Display unchanged, in json, text and csv output
     from ..scen_misc import sort_functions
     sort_functions(ctx)       # sort / sort_unique keep every integer (duplicates are removed with ==, not through an ordered set keyed by f64)
+    from ..scen_kernels2 import kernels2, kernels_fn
+    kernels2(ctx); kernels_fn(ctx)      # functions that hand a value on (casts, if, list / object helpers, map / filter ...) hand on the same value: no detour through floating point
     from ..scen_nas import nas_wiring
     nas_wiring(ctx)           # number-as-string functions: bigdecimal as exact rationals (z3 Real); the wiring is jawk's and is decided, the crate is trusted
